@@ -108,6 +108,11 @@ def run(repo: Repo, L: Ledger, tier: str):
                                 guarded = True
                     if e.kind == "iter" and e.val[0] == "next" and isinstance(e.node.target, ast.Name) and e.node.target.id == root.id:
                         guarded = False  # a new element: earlier facts were about another piece
+                        it_ = e.node.iter
+                        if isinstance(it_, ast.GeneratorExp | ast.ListComp) and len(it_.generators) == 1 and isinstance(it_.generators[0].target, ast.Name) and isinstance(it_.elt, ast.Name) and it_.elt.id == it_.generators[0].target.id:
+                            gv = it_.generators[0].target.id
+                            if any(norm(t).replace(" ", "") in (f"{gv}.rows", f"len({gv}.rows)") and v for c_ in it_.generators[0].ifs for t, v in cond_facts(c_, True)):
+                                guarded = True  # the loop runs over a filtered view: only pieces that have rows
                 if not guarded and bad_path is None:
                     bad_path = p_
             L.check(
